@@ -156,4 +156,54 @@ CLAIMED["C05"] = dict(
     technique="TLA+ spec + TLC model checking + TLC-generated behaviours replayed on the real batch pipeline + TLC trace validation",
     ref="5/C05")
 
+CLAIMED["C12"] = dict(
+    text="KeyBlind.tla is the key-blinding abstract data type over Algebra.tla's normal forms; TLC checks "
+         "SignVerifiesUnderBlinded, NotUnderOtherKeys, UnblindInverts, BlindCommutes, BlindAndContextMatter, BlindChangesKey and "
+         "PoolSignaturesSound over all key terms up to the depth. On each of P-224/256/384/521 a structured sequence (every "
+         "signing key x blind x context: blind, sign, verify under every relevant key, unblind back, two blinds in both orders) "
+         "and seeded random operation sequences run on real keys with results interned by their bytes; TLC accepts the trace only "
+         "if logged equalities are exactly the normal-form equalities, the fork's and crypto/ecdsa's verdicts equal the "
+         "specification's, and every blinded key equals the harness's independent RFC 9380 XMD hash-to-field x crypto/elliptic value.",
+    note="Group operations, hashes and ECDSA are uninterpreted in TLA+; numerical correctness enters through the independent "
+         "reference and crypto/ecdsa on the sampled keys, blinds (incl. leading-zero, >= N, one), contexts and digests.",
+    technique="TLA+ symbolic ADT + TLC invariants + TLC trace validation of interned results of recorded operation sequences with an independent XMD reference",
+    ref="5/C12")
+CLAIMED["C13"] = dict(
+    text="SigForks.tla states the decision structure of ECDSA verification (0 < r, s < N from the logged bytes against the curve "
+         "orders; DER.tla's strict SEQUENCE{INTEGER, INTEGER}) with the curve equation uninterpreted, Entropy.tla the allowed "
+         "outcomes of the entropy consumers for every failure position (TLC: FailClosed, OutcomeAllowed, "
+         "CoinOnlyMattersAtBoundary). Recorded traces per curve - (r, s) class products on real signatures, the DER mutation "
+         "closure with hand-made deviations and random strings, cross signing in both directions (raw, ASN.1, crypto.Signer, "
+         "key-blinded, generated keys), and every reader script for GenerateKey / Sign / SignASN1 / Signer.Sign / BlindKeySign - "
+         "are validated: fork = crypto/ecdsa everywhere, structurally bad inputs rejected by both, valid ones accepted, an "
+         "entropy failure gives an error and no key or signature.",
+    note="Arithmetic equivalence with crypto/ecdsa 'for every value' is sampled, not decided. MaybeReadByte's coin is unobservable, so with exactly 32 bytes available both outcomes are allowed.",
+    technique="TLA+ decision-structure and fault-sequence spec + TLC model checking + TLC trace validation of recorded fork-vs-stdlib calls and scripted entropy failures",
+    category="fault_enumeration",
+    ref="5/C13")
+CLAIMED["C14"] = dict(
+    text="SigForks.tla states the structural part of Ed25519 verification (length, top bits, S < L computed by TLC from the logged "
+         "bytes) and Entropy.tla the reader contract of GenerateKey. Recorded traces - key derivation and signing compared byte "
+         "for byte with crypto/ed25519 over seeded seeds and message lengths 0..2000; verification over the product of S classes "
+         "x R and A classes (honest, sign flipped, the eight small-order points, all non-canonical encodings of the repository's "
+         "own table, x = 0 with sign bit, off-curve) plus bit flips and lengths; GenerateKey of both implementations on identical "
+         "failing reader scripts (every failure position x chunking x error kind) - are validated: identical bytes, verdicts, "
+         "reader consumption and errors.",
+    note="NOT decided: equivalence of the fork's 2.5k lines of field/scalar arithmetic 'for all inputs incl. rare carry "
+         "patterns' - outside what a TLA+ specification can state; exercised only through the sampled inputs. Only the public API is driven.",
+    technique="TLA+ decision-structure spec + TLC trace validation of recorded fork-vs-crypto/ed25519 calls on adversarial encodings and scripted entropy failures",
+    category="fault_enumeration",
+    ref="5/C14")
+CLAIMED["C15"] = dict(
+    text="KeyBlind.tla with Deterministic = TRUE: the blinding laws plus SignDeterministic, checked by TLC over all key terms up "
+         "to the depth. Structured and seeded random operation sequences on real Ed25519 keys are recorded with interned keys "
+         "and signatures; TLC requires logged key equalities = normal-form equalities (unblinding inverts, blinding commutes, "
+         "blind and context matter), crypto/ed25519.Verify and the fork's Verify = the specification's verdict (blind signatures "
+         "verify under the blinded key with an unmodified verifier and not under the original key), one signature per (key, "
+         "blind, context, message), and every blinded key = SHA-512(blind || 00 || ctx)[0:32] mod L times the key by a math/big "
+         "Edwards-curve reference.",
+    note="Curve and scalar arithmetic are uninterpreted in TLA+; they enter through the math/big reference and crypto/ed25519 on the sampled keys, blinds, contexts and messages.",
+    technique="TLA+ symbolic ADT + TLC invariants + TLC trace validation of interned results with a math/big Edwards reference and the stdlib verifier",
+    ref="5/C15")
+
 NOT_YET = "check not built yet in this round (see DESIGN.md section 11 for the build order); no claim is made"
